@@ -876,6 +876,11 @@ def merge_values(conds, vals):
         if any(len(v) != n for v in vals):
             raise Unsupported('list length differs between paths')
         return [merge_values(conds, [v[k] for v in vals]) for k in range(n)]
+    if all(isinstance(v, dict) for v in vals):
+        keys = list(first)
+        if any(list(v) != keys for v in vals):
+            raise Unsupported('dictionary keys differ between paths')
+        return {k: merge_values(conds, [v[k] for v in vals]) for k in keys}
     if all(_isnum(v) for v in vals):
         r = vals[-1]
         for c, v in zip(reversed(conds[:-1]), reversed(vals[:-1])):
